@@ -93,6 +93,14 @@ CLAIMS["C17"] = {
     "design_ref": "DESIGN.md §5 C17",
 }
 
+CLAIMS["C04"] = {
+    "technique": "static analysis: cycle-passes-test reachability on the interpreter dispatch loop, who-may-write on eval_cost and csp over all units, dominance of limit comparisons at every raw allocation/growth site (arrays, buffers, mapping nodes, strings), re-raise path analysis in do_catch",
+    "text": "Decides the limit mechanism on all paths and sites: no cycle through the interpreter's dispatch avoids the exact-zero eval-cost tick and nothing else does arithmetic on the counter; refills happen only at task boundaries (the LPC-callable efun is a recorded finding); "
+            "both control-frame pushes are behind the call-depth test; do_catch re-raises both limit errors and keeps them uncatchable for enclosing catches; every raw array/buffer allocation, mapping node increment and string growth site in the driver is dominated by a comparison with its configured maximum. "
+            "That one tick does bounded work inside every efun, and total memory, are not decided.",
+    "design_ref": "DESIGN.md §5 C04",
+}
+
 NOT_APPLICABLE = {
     "C18": "Line/trace correctness is a value-level question about run-length tables (encode in the code generator, decode in find_line); no clause of it is visible in the shape of the code, so static analysis gives no verdict (DESIGN.md §6).",
 }
